@@ -135,7 +135,9 @@ def supplied_families(rows, basis, rng, tier):
     # "again": the same supplied set a second time in the same process with its columns in another order (a result that depends on
     # an earlier call -- e.g. a cached design matrix -- fails it)
     fams = [("canonical", canon, 3), ("canonical again, other column order, same process", canon, 3), ("full-nonzero", nonzero, 1),
-            ("canonical,one-parameter-zero-at-one-volume", canon, 3)]
+            ("canonical,one-parameter-zero-at-one-volume", canon, 3),
+            # the caller's frame carries row labels of its own (sorted by volume, a filtered subset, V as the index ...)
+            ("canonical, frame with row labels [7, 3, 5]", canon, 3)]
     exch = []
     for k in canon:
         for k2 in nonzero:
@@ -176,6 +178,9 @@ def fill_obligations(chk, F, system, rows, tier, rng):
             HISTORY[:] = []
         last_order = list(order)
         df = FC.make_table(t_rows, order, spell=spell)
+        ROW_LABELS[:] = [7, 3, 5][:nrows] if "row labels" in fam else []
+        if ROW_LABELS:
+            df.index = list(ROW_LABELS)
         ex = X.Explorer(max_paths=64, name=name)
         ex.prefer = FC.no_drop_cut
         t0 = time.time()
@@ -247,6 +252,7 @@ def fill_obligations(chk, F, system, rows, tier, rng):
 
 
 HISTORY = []
+ROW_LABELS = []
 
 
 def replay_fill(chk, F, system, basis, order, spell, nrows, rng, name, what, env=None, zero_at=None, quiet=False):
@@ -265,6 +271,8 @@ def replay_fill(chk, F, system, basis, order, spell, nrows, rng, name, what, env
         for k in order:
             data[spell.get(k, k)] = [t[r][k] for r in range(nrows)]
         df = pandas.DataFrame(data)
+        if ROW_LABELS:
+            df.index = list(ROW_LABELS)
         try:
             with warnings.catch_warnings():
                 warnings.simplefilter("ignore")
@@ -288,7 +296,7 @@ def replay_fill(chk, F, system, basis, order, spell, nrows, rng, name, what, env
             vals = [t[r][k] for r in range(nrows)]
             if k in cols:
                 got = [float(x) for x in out[cols[k]].tolist()]
-                if max(abs(g - w) for g, w in zip(got, vals)) > 1e-7 * scale:
+                if not max(abs(g - w) for g, w in zip(got, vals)) <= 1e-7 * scale:
                     chk.violation("%s:fill-deviates:%s" % (system, k),
                                   "fill_cij(%s): component %s = %s but the invariant tensor has %s (supplied %s)"
                                   % (system, k, got, vals, order), dict(system=system, table=data, component=k))
